@@ -558,7 +558,13 @@ func (vm *VirtualMachine) eval(ctx context.Context) error {
 			for i := uint16(0); i < count; i++ {
 				items[i] = vm.pop()
 			}
-			vm.push(object.NewSet(items))
+			set := object.NewSet(items)
+			// A member that cannot be hashed is an error to raise, not an
+			// error value to hand to the script in place of the set
+			if setErr, ok := set.(*object.Error); ok {
+				return setErr.Value()
+			}
+			vm.push(set)
 		case op.BinarySubscr:
 			idx := vm.pop()
 			lhs := vm.pop()
